@@ -96,7 +96,7 @@ def run(ck, prog, ctx):
 
     # ------------------------------------------------------------------ version()
     r = codec.header_reader(prog, pvn)
-    if ck.anchor("TABLE", "parser::binary::ontology::version", r):
+    if ck.anchor("TABLE", "parser::binary::ontology::version", r, private=True):
         b = r["body"]
         ck.ob("TABLE", "version/accepted", set(r["arms"]) == {2, 3}, "the header reader accepts version bytes %s (documented: 2 and 3)" % sorted(r["arms"]), where=b.where())
         for v, vs in sorted(r["arms"].items()):
@@ -161,7 +161,7 @@ def run(ck, prog, ctx):
                 BLD + "ontology::builder::ConnectedTerms>::add_genes_from_bytes", BLD + "ontology::builder::ConnectedTerms>::add_omim_disease_from_bytes",
                 BLD + "ontology::builder::ConnectedTerms>::add_orpha_disease_from_bytes"]:
         rb = prog.body(rid)
-        if not ck.anchor("DOM", rid.split("::")[-1] + " (record reader)", rb):
+        if not ck.anchor("DOM", rid.split("::")[-1] + " (record reader)", rb, private=(rb is None or rb.name != "next")):
             continue
         ip = 1 if rb.name == "next" else 2
         k = _layout.check_end_guards(ck, "DOM", rb.short, prog, rb, ip)
